@@ -24,3 +24,729 @@ Proof.
   - destruct (send s from to d amt); simpl; intros H; [now elim H | reflexivity].
   - destruct (grants s granter grantee); simpl; intros H; [reflexivity | now elim H].
 Qed.
+
+(** ---- small facts ---- *)
+Lemma key_eqb_eq a b : key_eqb a b = true <-> a = b.
+Proof.
+  unfold key_eqb. destruct a as [x u], b as [y v]; simpl. rewrite andb_true_iff, Z.eqb_eq, Bool.eqb_true_iff.
+  split; [intros [-> ->]; reflexivity | intros E; inversion E; auto].
+Qed.
+Lemma key_eqb_refl a : key_eqb a a = true. Proof. now apply key_eqb_eq. Qed.
+Lemma key_eqb_neq a b : key_eqb a b = false <-> a <> b.
+Proof.
+  split.
+  - intros H E. apply key_eqb_eq in E. congruence.
+  - intros H. destruct (key_eqb a b) eqn:E; [apply key_eqb_eq in E; contradiction | reflexivity].
+Qed.
+
+Definition lic_ids (l : list (key * licence)) : list addr := map (fun p => fst (fst p)) l.
+
+Lemma lic_get_In l k v : lic_get l k = Some v -> In (k, v) l.
+Proof.
+  induction l as [|[k' v'] r IH]; simpl; [discriminate|].
+  destruct (key_eqb k' k) eqn:E.
+  - intros H; inversion H; subst. apply key_eqb_eq in E; subst. now left.
+  - intros H; right; auto.
+Qed.
+
+Lemma lic_get_none_notin l k : (forall v, ~ In (k, v) l) -> lic_get l k = None.
+Proof.
+  induction l as [|[k' v'] r IH]; simpl; intros H; [reflexivity|].
+  destruct (key_eqb k' k) eqn:E.
+  - apply key_eqb_eq in E; subst. exfalso. apply (H v'). now left.
+  - apply IH. intros v Hv. apply (H v). now right.
+Qed.
+
+Lemma In_lic_ids l k v : In (k, v) l -> In (fst k) (lic_ids l).
+Proof. intros H. unfold lic_ids. apply in_map_iff. exists (k, v). split; auto. Qed.
+
+Lemma lic_get_id_notin l k : ~ In (fst k) (lic_ids l) -> lic_get l k = None.
+Proof. intros H. apply lic_get_none_notin. intros v Hv. apply H. eapply In_lic_ids; eauto. Qed.
+
+Lemma In_lic_del l k p : In p (lic_del l k) <-> In p l /\ fst p <> k.
+Proof.
+  unfold lic_del. rewrite filter_In. rewrite negb_true_iff, key_eqb_neq. tauto.
+Qed.
+
+Lemma lic_ids_del_incl l k a : In a (lic_ids (lic_del l k)) -> In a (lic_ids l).
+Proof.
+  unfold lic_ids. rewrite !in_map_iff. intros [p [E H]]. apply In_lic_del in H as [H _]. eauto.
+Qed.
+
+Lemma NoDup_lic_ids_del l k : NoDup (lic_ids l) -> NoDup (lic_ids (lic_del l k)).
+Proof.
+  induction l as [|[k' v'] r IH]; simpl; intros H; [constructor|].
+  inversion H as [|x xs Hn Hd]; subst.
+  destruct (negb (key_eqb k' k)); simpl; auto.
+  constructor; auto. intros Hin. apply Hn. now apply lic_ids_del_incl in Hin.
+Qed.
+
+Lemma filter_all_id {A} (f : A -> bool) l : (forall x, In x l -> f x = true) -> filter f l = l.
+Proof.
+  induction l as [|x r IH]; simpl; intros H; [reflexivity|].
+  rewrite (H x (or_introl eq_refl)). f_equal. apply IH. intros y Hy. apply H. now right.
+Qed.
+
+(** with one licence per address, deleting the licence of [k] removes exactly its amount *)
+Lemma lic_sum_del d l k v : NoDup (lic_ids l) -> lic_get l k = Some v ->
+  lic_sum d (lic_del l k) = lic_sum d l - (if l_denom v =? d then l_amount v else 0).
+Proof.
+  induction l as [|[k' v'] r IH]; simpl; [discriminate|].
+  intros Hnd Hg. inversion Hnd as [|x xs Hn Hd]; subst.
+  destruct (key_eqb k' k) eqn:E; simpl.
+  - inversion Hg; subst. apply key_eqb_eq in E; subst.
+    assert (Hr : lic_del r k = r).
+    { unfold lic_del. apply filter_all_id. intros [k2 v2] Hin. simpl.
+      apply negb_true_iff, key_eqb_neq. intros ->. apply Hn. eapply In_lic_ids; eauto. }
+    rewrite Hr. lia.
+  - rewrite IH; auto. lia.
+Qed.
+
+Lemma lic_get_del_same l k : lic_get (lic_del l k) k = None.
+Proof.
+  apply lic_get_none_notin. intros v H. apply In_lic_del in H as [_ H]. now apply H.
+Qed.
+
+Lemma lic_get_del_other l k k' : k' <> k -> lic_get (lic_del l k) k' = lic_get l k'.
+Proof.
+  intros Hne. induction l as [|[k2 v2] r IH]; simpl; [reflexivity|].
+  destruct (key_eqb k2 k) eqn:E; simpl.
+  - apply key_eqb_eq in E; subst. destruct (key_eqb k k') eqn:E2; [apply key_eqb_eq in E2; congruence | exact IH].
+  - destruct (key_eqb k2 k'); [reflexivity | exact IH].
+Qed.
+
+(** ---- bank.SendCoins ---- *)
+Definition sent_bal (s : state) (from to : addr) (d : denom) (amt : Z) : addr -> denom -> Z :=
+  let bal1 := upd2 (bal s) from d (bal s from d - amt) in
+  upd2 bal1 to d (bal1 to d + amt).
+
+Lemma send_inl s from to d amt s' : send s from to d amt = inl s' ->
+  0 < amt /\ amt <= bal s from d - locked s from d /\
+  bal s' = sent_bal s from to d amt /\
+  acct s' = (match acct s to with None => upd1 (acct s) to (Some Base) | Some _ => acct s end) /\
+  now s' = now s /\ lics s' = lics s /\ clients s' = clients s /\ grants s' = grants s /\
+  feegranter s' = feegranter s /\ funders s' = funders s /\ contracts s' = contracts s /\ gifts s' = gifts s.
+Proof.
+  unfold send. destruct (amt <=? 0) eqn:E1; [discriminate|].
+  destruct (bal s from d <? locked s from d) eqn:E2; [discriminate|].
+  destruct (bal s from d - locked s from d <? amt) eqn:E3; [discriminate|].
+  intros H; inversion H; subst; clear H.
+  apply Z.leb_gt in E1. apply Z.ltb_ge in E3.
+  simpl. destruct (acct s to); simpl; repeat split; auto.
+Qed.
+
+Lemma sent_bal_other s from to d amt a d' :
+  (a <> from /\ a <> to) \/ d' <> d -> sent_bal s from to d amt a d' = bal s a d'.
+Proof.
+  unfold sent_bal, upd2. intros H.
+  destruct (a =? to) eqn:E1, (d' =? d) eqn:E2, (a =? from) eqn:E3; simpl; try reflexivity;
+    try apply Z.eqb_eq in E1; try apply Z.eqb_eq in E2; try apply Z.eqb_eq in E3; subst; lia.
+Qed.
+
+Lemma sent_bal_to s from to d amt : from <> to -> sent_bal s from to d amt to d = bal s to d + amt.
+Proof.
+  unfold sent_bal, upd2. intros H. rewrite !Z.eqb_refl. simpl.
+  destruct (to =? from) eqn:E; [apply Z.eqb_eq in E; congruence|]. simpl. reflexivity.
+Qed.
+
+Lemma sent_bal_from s from to d amt : from <> to -> sent_bal s from to d amt from d = bal s from d - amt.
+Proof.
+  unfold sent_bal, upd2. intros H. rewrite !Z.eqb_refl. simpl.
+  destruct (from =? to) eqn:E; [apply Z.eqb_eq in E; congruence|]. simpl. reflexivity.
+Qed.
+
+Lemma sent_bal_self s a d amt : sent_bal s a a d amt a d = bal s a d.
+Proof. unfold sent_bal, upd2. rewrite !Z.eqb_refl. simpl. lia. Qed.
+
+(** ---- what a successful call did ---- *)
+Definition same_config (s s' : state) : Prop :=
+  now s' = now s /\ clients s' = clients s /\ feegranter s' = feegranter s /\ funders s' = funders s /\
+  contracts s' = contracts s /\ gifts s' = gifts s.
+
+Lemma locked_upd_none s a x d : acct s a = None ->
+  locked (set_acct s (upd1 (acct s) a (Some Base))) x d = locked s x d.
+Proof.
+  intros H. unfold locked, set_acct, upd1; simpl.
+  destruct (x =? a) eqn:E; [apply Z.eqb_eq in E; subst; now rewrite H | reflexivity].
+Qed.
+
+Lemma create_ok cr cl d amt m s s' :
+  acct s escrow = Some Module ->
+  create_licence_raw cr cl d amt m s = (s', Ok) ->
+  str_valid cr = true /\ str_valid cl = true /\ 0 <= d /\
+  lic_get (lics s) cl = None /\ acct s (fst cl) = None /\
+  0 < amt /\ amt <= bal s (fst cr) d - locked s (fst cr) d /\
+  bal s' = sent_bal s (fst cr) escrow d amt /\
+  acct s' = upd1 (acct s) (fst cl) (Some Base) /\
+  lics s' = (cl, {| l_denom := d; l_amount := amt; l_months := m |}) :: lics s /\
+  grants s' = grants s /\ same_config s s'.
+Proof.
+  intros Hesc. unfold create_licence_raw.
+  destruct (negb (str_valid cr)) eqn:E1; [intros H; inversion H|].
+  destruct ((d <? 0) || (amt <? 0)) eqn:E2; [intros H; inversion H|].
+  destruct (lic_get (lics s) cl) eqn:E3; [intros H; inversion H|].
+  destruct (negb (str_valid cl)) eqn:E4; [intros H; inversion H|].
+  destruct (acct s (fst cl)) eqn:E5; [intros H; inversion H|].
+  destruct (send _ _ _ _ _) as [s2|e] eqn:E6; [|intros H; inversion H].
+  intros H; inversion H; subst; clear H.
+  apply send_inl in E6 as (Hpos & Hle & Hbal & Hacct & Hnow & Hlics & Hcl & Hgr & Hfg & Hfu & Hco & Hgi).
+  apply negb_false_iff in E1, E4. apply orb_false_iff in E2 as [E2 _]. apply Z.ltb_ge in E2.
+  rewrite (locked_upd_none s (fst cl)) in Hle by assumption.
+  simpl in *.
+  assert (Hne : fst cl <> escrow) by (intros Heq; rewrite Heq in E5; congruence).
+  repeat split; auto.
+  - rewrite Hacct. unfold upd1 at 1. destruct (escrow =? fst cl) eqn:E; [apply Z.eqb_eq in E; congruence|].
+    rewrite Hesc. reflexivity.
+  - rewrite Hlics. reflexivity.
+Qed.
+
+Lemma activate_ok who s s' :
+  acct s escrow = Some Module ->
+  activate_raw who s = (s', Ok) ->
+  exists l, lic_get (lics s) who = Some l /\ str_valid who = true /\ acct s (fst who) = Some Base /\
+    fst who <> escrow /\ 0 < l_amount l /\ l_amount l <= bal s escrow (l_denom l) /\
+    bal s' = sent_bal s escrow (fst who) (l_denom l) (l_amount l) /\
+    acct s' = upd1 (acct s) (fst who)
+                (Some (Vesting (now s) (add_months (now s) (l_months l)) (l_amount l) (l_denom l))) /\
+    lics s' = lic_del (lics s) who /\
+    clients s' = updk (clients s) who (Some (now s, now s)) /\
+    now s' = now s /\ grants s' = grants s /\ feegranter s' = feegranter s /\ funders s' = funders s /\
+    contracts s' = contracts s /\ gifts s' = gifts s.
+Proof.
+  intros Hesc. unfold activate_raw.
+  destruct (lic_get (lics s) who) as [l|] eqn:E1; [|intros H; inversion H].
+  destruct (negb (str_valid who)) eqn:E2; [intros H; inversion H|].
+  destruct (acct s (fst who)) as [[| |]|] eqn:E3; try (intros H; inversion H; fail).
+  destruct ((add_months (now s) (l_months l) <? 0) || (l_amount l <=? 0)) eqn:E4; [intros H; inversion H|].
+  destruct (fst who =? escrow) eqn:E5; [intros H; inversion H|].
+  destruct (send _ _ _ _ _) as [s2|e] eqn:E6; [|intros H; inversion H].
+  intros H; inversion H; subst; clear H.
+  apply send_inl in E6 as (Hpos & Hle & Hbal & Hacct & Hnow & Hlics & Hcl & Hgr & Hfg & Hfu & Hco & Hgi).
+  apply negb_false_iff in E2. apply Z.eqb_neq in E5.
+  exists l. simpl in *.
+  assert (Hlk : locked (set_acct s (upd1 (acct s) (fst who)
+             (Some (Vesting (now s) (add_months (now s) (l_months l)) (l_amount l) (l_denom l))))) escrow (l_denom l) = 0).
+  { assert (E : (escrow =? fst who) = false) by (apply Z.eqb_neq; congruence).
+    unfold locked, set_acct; cbn [acct now]. unfold upd1. rewrite E. now rewrite Hesc. }
+  rewrite Hlk in Hle.
+  apply orb_false_iff in E4 as [_ E4]. apply Z.leb_gt in E4.
+  repeat split; auto; try lia.
+  - rewrite Hacct. unfold upd1 at 1. rewrite Z.eqb_refl. reflexivity.
+  - rewrite Hlics. reflexivity.
+  - rewrite Hcl. reflexivity.
+Qed.
+
+Lemma pick_funder_gen s amt fs : forall acc f,
+  fold_left (fun acc f => if amt <=? bal s f bond then Some f else acc) fs acc = Some f ->
+  (In f fs /\ amt <= bal s f bond) \/ acc = Some f.
+Proof.
+  induction fs as [|x r IH]; simpl; intros acc f H; [now right|].
+  apply IH in H as [[Hin Hle]|H]; [left; auto|].
+  destruct (amt <=? bal s x bond) eqn:E; [|now right].
+  inversion H; subst. left. split; [now left | now apply Z.leb_le].
+Qed.
+
+Lemma pick_funder_some s fs amt f : pick_funder s fs amt = Some f -> In f fs /\ amt <= bal s f bond.
+Proof. intros H. apply pick_funder_gen in H as [H|H]; [exact H | discriminate]. Qed.
+
+Definition add_grant (s : state) (g e : addr) : state :=
+  set_grants s (fun a b => if (a =? g) && (b =? e) then true else grants s a b).
+
+Lemma sale_ok client amount s s' :
+  sale_licence_raw client amount s = (s', Ok) ->
+  0 <= amount /\ amount * Gen.C18.sale_multiplier < two256 /\
+  exists g fs f s1, feegranter s = Some g /\ funders s = Some fs /\ In f fs /\
+    amount * Gen.C18.sale_multiplier <= bal s f bond /\
+    create_licence_raw (f, false) client bond (amount * Gen.C18.sale_multiplier) Gen.C18.sale_vesting_months s = (s1, Ok) /\
+    grants s1 g (fst client) = false /\ s' = add_grant s1 g (fst client).
+Proof.
+  unfold sale_licence_raw.
+  destruct ((amount <? 0) || (two256 <=? Z.abs (amount * Gen.C18.sale_multiplier))) eqn:E1; [intros H; inversion H|].
+  destruct (feegranter s) as [g|] eqn:E2; [|intros H; inversion H].
+  destruct (funders s) as [fs|] eqn:E3; [|intros H; inversion H].
+  destruct fs as [|f0 fr] eqn:Efs; [intros H; inversion H|]. rewrite <- Efs in *.
+  destruct (pick_funder s fs _) as [f|] eqn:E4; [|intros H; inversion H].
+  destruct (create_licence_raw _ _ _ _ _ s) as [s1 o] eqn:E5.
+  destruct o; try (intros H; inversion H; fail).
+  destruct (negb (str_valid client)) eqn:E6; [intros H; inversion H|].
+  destruct (grants s1 g (fst client)) eqn:E7; [intros H; inversion H|].
+  intros H; inversion H; subst s'; clear H.
+  apply orb_false_iff in E1 as [E1a E1b]. apply Z.ltb_ge in E1a. apply Z.leb_gt in E1b.
+  apply pick_funder_some in E4 as [Hin Hle].
+  split; [lia|]. split; [lia|].
+  exists g, fs, f, s1. subst fs. repeat split; auto.
+Qed.
+
+Lemma handle_sale_ok chain contract client amount s s' :
+  handle_sale_raw chain contract client amount s = (s', Ok) ->
+  contracts s chain = Some contract /\ sale_licence_raw client amount s = (s', Ok).
+Proof.
+  unfold handle_sale_raw. destruct (contracts s chain) as [c|]; [|intros H; inversion H].
+  destruct (c =? contract) eqn:E; [|intros H; inversion H].
+  apply Z.eqb_eq in E; subst. auto.
+Qed.
+
+(** [step] on the three wrapped operations, when it succeeds *)
+Lemma step_ok_atomically f s s' : atomically f s = (s', Ok) -> f s = (s', Ok).
+Proof. unfold atomically. destruct (f s) as [s1 o]; destruct o; intros H; inversion H; reflexivity. Qed.
+
+(** ---- invariants ---- *)
+Record inv_struct (s : state) : Prop := {
+  is_escrow : acct s escrow = Some Module;
+  is_lic : forall k l, In (k, l) (lics s) ->
+             acct s (fst k) = Some Base /\ 0 < l_amount l /\ str_valid k = true;
+  is_nodup : NoDup (lic_ids (lics s)) }.
+
+Record inv_escrow (s : state) : Prop := {
+  ie_bal : forall d, bal s escrow d = lic_sum d (lics s) + gifts s d;
+  ie_gifts : forall d, 0 <= gifts s d;
+  ie_funders : forall fs, funders s = Some fs -> ~ In escrow fs }.
+
+Definition inv (s : state) : Prop := inv_struct s /\ inv_escrow s.
+
+Lemma nodup_ids_inj l k1 v1 k2 v2 : NoDup (lic_ids l) -> In (k1, v1) l -> In (k2, v2) l ->
+  fst k1 = fst k2 -> (k1, v1) = (k2, v2).
+Proof.
+  induction l as [|[k v] r IH]; simpl; intros Hnd H1 H2 He; [contradiction|].
+  inversion Hnd as [|x xs Hn Hd]; subst.
+  destruct H1 as [H1|H1], H2 as [H2|H2].
+  - congruence.
+  - inversion H1; subst. exfalso. apply Hn. rewrite He. eapply In_lic_ids; eauto.
+  - inversion H2; subst. exfalso. apply Hn. rewrite <- He. eapply In_lic_ids; eauto.
+  - auto.
+Qed.
+
+(** accounts that exist are left as they are *)
+Definition acct_mono (s s' : state) : Prop := forall a, acct s a <> None -> acct s' a = acct s a.
+
+Lemma struct_same_lics s s' : inv_struct s -> acct_mono s s' -> lics s' = lics s -> inv_struct s'.
+Proof.
+  intros [He Hl Hn] Hm Hlics. constructor.
+  - rewrite Hm; [exact He | congruence].
+  - rewrite Hlics. intros k l Hin. destruct (Hl k l Hin) as (Ha & Hp & Hv). repeat split; auto.
+    rewrite Hm; [exact Ha | congruence].
+  - rewrite Hlics. exact Hn.
+Qed.
+
+Lemma upd1_none_mono s s' a v : acct s a = None -> acct s' = upd1 (acct s) a v -> acct_mono s s'.
+Proof.
+  intros Hn He x Hx. rewrite He. unfold upd1. destruct (x =? a) eqn:E; [|reflexivity].
+  apply Z.eqb_eq in E; subst. contradiction.
+Qed.
+
+Lemma send_mono s from to d amt s' : send s from to d amt = inl s' -> acct_mono s s'.
+Proof.
+  intros H. apply send_inl in H as (_ & _ & _ & Hacct & _).
+  destruct (acct s to) eqn:E.
+  - intros x _. now rewrite Hacct.
+  - eapply upd1_none_mono; eauto.
+Qed.
+
+Lemma create_struct cr cl d amt m s s' : inv_struct s ->
+  create_licence_raw cr cl d amt m s = (s', Ok) -> inv_struct s'.
+Proof.
+  intros Hs H. pose proof Hs as [He Hl Hn].
+  apply (create_ok _ _ _ _ _ _ _ He) in H
+    as (Hvcr & Hvcl & Hd & Hnone & Hacc & Hpos & Hle & Hbal & Hacct & Hlics & Hgr & Hcfg).
+  assert (Hm : acct_mono s s') by (eapply upd1_none_mono; eauto).
+  constructor.
+  - rewrite Hm; [exact He | congruence].
+  - rewrite Hlics. intros k l [Hin|Hin].
+    + inversion Hin; subst. simpl. repeat split; auto. rewrite Hacct. unfold upd1. now rewrite Z.eqb_refl.
+    + destruct (Hl k l Hin) as (Ha & Hp & Hv). repeat split; auto. rewrite Hm; [exact Ha | congruence].
+  - rewrite Hlics. simpl. constructor; auto.
+    intros Hin. unfold lic_ids in Hin. apply in_map_iff in Hin as [[k l] [Hk Hin]]. simpl in Hk.
+    destruct (Hl k l Hin) as (Ha & _). rewrite Hk in Ha. congruence.
+Qed.
+
+Lemma activate_struct who s s' : inv_struct s -> activate_raw who s = (s', Ok) -> inv_struct s'.
+Proof.
+  intros Hs H. pose proof Hs as [He Hl Hn].
+  apply (activate_ok _ _ _ He) in H
+    as (l0 & Hget & Hv & Hbase & Hne & Hpos & Hle & Hbal & Hacct & Hlics & _).
+  apply lic_get_In in Hget.
+  constructor.
+  - rewrite Hacct. unfold upd1. destruct (escrow =? fst who) eqn:E; [apply Z.eqb_eq in E; congruence | exact He].
+  - rewrite Hlics. intros k l Hin. apply In_lic_del in Hin as [Hin Hk]. simpl in Hk.
+    destruct (Hl k l Hin) as (Ha & Hp & Hvk). repeat split; auto.
+    rewrite Hacct. unfold upd1. destruct (fst k =? fst who) eqn:E; [|exact Ha].
+    apply Z.eqb_eq in E. exfalso. apply Hk.
+    pose proof (nodup_ids_inj _ _ _ _ _ Hn Hin Hget E) as Heq. now inversion Heq.
+  - rewrite Hlics. now apply NoDup_lic_ids_del.
+Qed.
+
+Lemma add_grant_struct s g e : inv_struct s -> inv_struct (add_grant s g e).
+Proof. intros [He Hl Hn]. constructor; simpl; auto. Qed.
+
+Lemma step_struct s o : inv_struct s -> inv_struct (fst (step s o)).
+Proof.
+  intros Hs. destruct (step s o) as [s' out] eqn:E. destruct out;
+    try (pose proof (failed_op_is_noop s o) as Hf; rewrite E in Hf; simpl in *; rewrite Hf; [exact Hs | discriminate]).
+  simpl. destruct o; simpl in E.
+  - apply step_ok_atomically in E. eapply create_struct; eauto.
+  - apply step_ok_atomically in E. eapply activate_struct; eauto.
+  - destruct (clients s who) as [[a l]|]; inversion E; subst. destruct Hs; constructor; simpl; auto.
+  - apply step_ok_atomically in E. apply handle_sale_ok in E as [_ E].
+    apply sale_ok in E as (_ & _ & g & fs & f & s1 & _ & _ & _ & _ & Hc & _ & ->).
+    apply add_grant_struct. eapply create_struct; eauto.
+  - destruct (send s from to d amt) as [s1|e] eqn:Es; inversion E; subst.
+    pose proof (send_mono _ _ _ _ _ _ Es) as Hm.
+    apply send_inl in Es as (_ & _ & _ & _ & _ & Hlics & _).
+    assert (H1 : inv_struct s1) by (eapply struct_same_lics; eauto).
+    destruct (to =? escrow); [destruct H1; constructor; simpl; auto | exact H1].
+  - destruct (grants s granter grantee); inversion E; subst.
+    apply (add_grant_struct _ granter grantee).
+    destruct (acct s grantee) eqn:Ea; [exact Hs|].
+    eapply struct_same_lics; eauto. eapply upd1_none_mono; eauto. reflexivity.
+  - inversion E; subst. destruct Hs; constructor; simpl; auto.
+  - inversion E; subst. destruct Hs; constructor; simpl; auto.
+  - inversion E; subst. destruct Hs; constructor; simpl; auto.
+  - inversion E; subst. destruct (dt <? 0); [exact Hs | destruct Hs; constructor; simpl; auto].
+Qed.
+
+(** ---- the escrow equation ---- *)
+Lemma create_escrow cr cl d amt m s s' : inv_struct s -> inv_escrow s -> fst cr <> escrow ->
+  create_licence_raw cr cl d amt m s = (s', Ok) -> inv_escrow s'.
+Proof.
+  intros Hs [Hb Hg Hf] Hcr H. pose proof Hs as [He Hl Hn].
+  apply (create_ok _ _ _ _ _ _ _ He) in H
+    as (Hvcr & Hvcl & Hd & Hnone & Hacc & Hpos & Hle & Hbal & Hacct & Hlics & Hgr & Hcfg).
+  destruct Hcfg as (_ & _ & _ & Hfu & _ & Hgi).
+  constructor.
+  - intros d'. rewrite Hbal, Hlics, Hgi. simpl.
+    destruct (d =? d') eqn:E.
+    + apply Z.eqb_eq in E; subst d'. rewrite sent_bal_to by assumption. rewrite Hb. lia.
+    + apply Z.eqb_neq in E. rewrite sent_bal_other by (right; congruence). rewrite Hb. lia.
+  - rewrite Hgi. exact Hg.
+  - rewrite Hfu. exact Hf.
+Qed.
+
+Lemma activate_escrow who s s' : inv_struct s -> inv_escrow s ->
+  activate_raw who s = (s', Ok) -> inv_escrow s'.
+Proof.
+  intros Hs [Hb Hg Hf] H. pose proof Hs as [He Hl Hn].
+  apply (activate_ok _ _ _ He) in H
+    as (l0 & Hget & Hv & Hbase & Hne & Hpos & Hle & Hbal & Hacct & Hlics & Hcl & Hnow & Hgr & Hfg & Hfu & Hco & Hgi).
+  constructor.
+  - intros d'. rewrite Hbal, Hlics, Hgi. rewrite (lic_sum_del d' _ _ _ Hn Hget).
+    destruct (l_denom l0 =? d') eqn:E.
+    + apply Z.eqb_eq in E; subst d'. rewrite sent_bal_from by congruence. rewrite Hb. lia.
+    + apply Z.eqb_neq in E. rewrite sent_bal_other by (right; congruence). rewrite Hb. lia.
+  - rewrite Hgi. exact Hg.
+  - rewrite Hfu. exact Hf.
+Qed.
+
+Lemma add_grant_escrow s g e : inv_escrow s -> inv_escrow (add_grant s g e).
+Proof. intros [Hb Hg Hf]. constructor; simpl; auto. Qed.
+
+Lemma step_escrow s o : inv_struct s -> inv_escrow s -> op_wf o -> inv_escrow (fst (step s o)).
+Proof.
+  intros Hs Hi Hwf. destruct (step s o) as [s' out] eqn:E. destruct out;
+    try (pose proof (failed_op_is_noop s o) as Hf; rewrite E in Hf; simpl in *; rewrite Hf; [exact Hi | discriminate]).
+  simpl. destruct o; simpl in E, Hwf.
+  - apply step_ok_atomically in E. eapply create_escrow; eauto.
+  - apply step_ok_atomically in E. eapply activate_escrow; eauto.
+  - destruct (clients s who) as [[a l]|]; inversion E; subst. destruct Hi; constructor; simpl; auto.
+  - apply step_ok_atomically in E. apply handle_sale_ok in E as [_ E].
+    apply sale_ok in E as (_ & _ & g & fs & f & s1 & _ & Hfu & Hin & _ & Hc & _ & ->).
+    apply add_grant_escrow. eapply create_escrow; eauto. simpl.
+    intros ->. destruct Hi as [_ _ Hf]. exact (Hf _ Hfu Hin).
+  - destruct (send s from to d amt) as [s1|e] eqn:Es; inversion E; subst. clear E.
+    apply send_inl in Es as (Hpos & _ & Hbal & _ & _ & Hlics & _ & _ & _ & Hfu & _ & Hgi).
+    destruct Hi as [Hb Hg Hf].
+    destruct (to =? escrow) eqn:Et.
+    + apply Z.eqb_eq in Et; subst to. constructor; simpl.
+      * intros d'. rewrite Hbal, Hlics, Hgi. unfold upd1.
+        destruct (d' =? d) eqn:E.
+        -- apply Z.eqb_eq in E; subst d'. rewrite sent_bal_to by assumption. rewrite Hb. lia.
+        -- apply Z.eqb_neq in E. rewrite sent_bal_other by (right; congruence). apply Hb.
+      * intros d'. rewrite Hgi. unfold upd1. destruct (d' =? d) eqn:E.
+        -- apply Z.eqb_eq in E; subst d'. specialize (Hg d). lia.
+        -- apply Hg.
+      * rewrite Hfu. exact Hf.
+    + apply Z.eqb_neq in Et. constructor.
+      * intros d'. rewrite Hbal, Hlics, Hgi. rewrite sent_bal_other by (left; split; congruence). apply Hb.
+      * rewrite Hgi. exact Hg.
+      * rewrite Hfu. exact Hf.
+  - destruct (grants s granter grantee); inversion E; subst.
+    apply (add_grant_escrow _ granter grantee).
+    destruct (acct s grantee); [exact Hi | destruct Hi; constructor; simpl; auto].
+  - inversion E; subst. destruct Hi; constructor; simpl; auto.
+  - inversion E; subst. destruct Hi as [Hb Hg Hf]; constructor; simpl; auto.
+    intros fs. destruct l; [discriminate|]. intros H; inversion H; subst. exact Hwf.
+  - inversion E; subst. destruct Hi; constructor; simpl; auto.
+  - inversion E; subst. destruct (dt <? 0); [exact Hi | destruct Hi; constructor; simpl; auto].
+Qed.
+
+Lemma run_app s a b : run s (a ++ b) = run (run s a) b.
+Proof. unfold run. apply fold_left_app. Qed.
+
+Lemma run_inv ops : forall s, inv s -> Forall op_wf ops -> inv (run s ops).
+Proof.
+  induction ops as [|o r IH]; intros s [Hs Hi] Hwf; [split; assumption|].
+  inversion Hwf; subst. simpl. apply IH; auto.
+  split; [now apply step_struct | now apply step_escrow].
+Qed.
+
+Lemma run_struct ops : forall s, inv_struct s -> inv_struct (run s ops).
+Proof.
+  induction ops as [|o r IH]; intros s Hs; [assumption|]. simpl. apply IH. now apply step_struct.
+Qed.
+
+Lemma lic_sum_nonneg d l : (forall k v, In (k, v) l -> 0 < l_amount v) -> 0 <= lic_sum d l.
+Proof.
+  induction l as [|[k v] r IH]; simpl; intros H; [lia|].
+  assert (0 < l_amount v) by (eapply H; left; reflexivity).
+  assert (0 <= lic_sum d r) by (apply IH; intros k' v' Hin; eapply H; right; eauto).
+  destruct (l_denom v =? d); lia.
+Qed.
+
+(** gifts never shrink *)
+Lemma step_gifts s o d : gifts s d <= gifts (fst (step s o)) d.
+Proof.
+  destruct (step s o) as [s' out] eqn:E. destruct out;
+    try (pose proof (failed_op_is_noop s o) as Hf; rewrite E in Hf; simpl in *; rewrite Hf; [lia | discriminate]).
+  simpl. destruct o; simpl in E.
+  - apply step_ok_atomically in E. unfold create_licence_raw in E.
+    repeat match type of E with
+    | (if ?c then _ else _) = _ => destruct c; [inversion E|]
+    | match ?c with _ => _ end = _ => destruct c eqn:?; try (inversion E; fail)
+    end. inversion E; subst. simpl.
+    match goal with H : send _ _ _ _ _ = inl _ |- _ => apply send_inl in H as (_&_&_&_&_&_&_&_&_&_&_&Hg) end.
+    rewrite Hg. simpl. lia.
+  - apply step_ok_atomically in E. unfold activate_raw in E.
+    repeat match type of E with
+    | (if ?c then _ else _) = _ => destruct c; [inversion E|]
+    | match ?c with _ => _ end = _ => destruct c eqn:?; try (inversion E; fail)
+    end. inversion E; subst. simpl.
+    match goal with H : send _ _ _ _ _ = inl _ |- _ => apply send_inl in H as (_&_&_&_&_&_&_&_&_&_&_&Hg) end.
+    rewrite Hg. simpl. lia.
+  - destruct (clients s who) as [[a l]|]; inversion E; subst. simpl. lia.
+  - apply step_ok_atomically in E. apply handle_sale_ok in E as [_ E].
+    apply sale_ok in E as (_ & _ & g & fs & f & s1 & _ & _ & _ & _ & Hc & _ & ->). simpl.
+    unfold create_licence_raw in Hc.
+    repeat match type of Hc with
+    | (if ?c then _ else _) = _ => destruct c; [inversion Hc|]
+    | match ?c with _ => _ end = _ => destruct c eqn:?; try (inversion Hc; fail)
+    end. inversion Hc; subst. simpl.
+    match goal with H : send _ _ _ _ _ = inl _ |- _ => apply send_inl in H as (_&_&_&_&_&_&_&_&_&_&_&Hg) end.
+    rewrite Hg. simpl. lia.
+  - destruct (send s from to d0 amt) as [s1|e] eqn:Es; inversion E; subst. clear E.
+    apply send_inl in Es as (Hpos & _ & _ & _ & _ & _ & _ & _ & _ & _ & _ & Hgi).
+    destruct (to =? escrow); simpl; rewrite Hgi; [|lia].
+    unfold upd1. destruct (d =? d0) eqn:E; [apply Z.eqb_eq in E; subst; lia | lia].
+  - destruct (grants s granter grantee); inversion E; subst. simpl. destruct (acct s grantee); simpl; lia.
+  - inversion E; subst. simpl. lia.
+  - inversion E; subst. simpl. lia.
+  - inversion E; subst. simpl. lia.
+  - inversion E; subst. destruct (dt <? 0); simpl; lia.
+Qed.
+
+Lemma run_gifts ops : forall s d, gifts s d <= gifts (run s ops) d.
+Proof.
+  induction ops as [|o r IH]; intros s d; simpl; [lia|].
+  pose proof (step_gifts s o d). pose proof (IH (fst (step s o)) d). lia.
+Qed.
+
+(** C18, clause 1 *)
+Theorem escrow_covers_licences_thm : forall (s0 : state) (ops : list op),
+  inv s0 -> Forall op_wf ops ->
+  let s := run s0 ops in
+  forall d, bal s escrow d = lic_sum d (lics s) + gifts s d /\
+            lic_sum d (lics s) <= bal s escrow d /\
+            gifts s0 d <= gifts s d /\
+            (gifts s d = 0 -> bal s escrow d = lic_sum d (lics s)).
+Proof.
+  intros s0 ops Hi Hwf s d. pose proof (run_inv ops s0 Hi Hwf) as [Hs [Hb Hg Hf]]. fold s in Hs, Hb, Hg.
+  repeat split.
+  - apply Hb.
+  - rewrite Hb. specialize (Hg d). lia.
+  - apply run_gifts.
+  - intros H0. rewrite Hb. lia.
+Qed.
+
+(** ---- C18, clause 2: creation guard ---- *)
+Definition creates (o : op) (client : key) : Prop :=
+  (exists cr d amt m, o = AddLicence cr client d amt m) \/ (exists ch c amount, o = Sale ch c client amount).
+
+Lemma no_licence_without_account s a : inv_struct s -> acct s a = None ->
+  forall up, lic_get (lics s) (a, up) = None.
+Proof.
+  intros [He Hl Hn] Ha up. apply lic_get_none_notin. intros v Hin.
+  destruct (Hl _ _ Hin) as (Hb & _). simpl in Hb. congruence.
+Qed.
+
+Theorem licence_creation_guard_thm : forall (s s' : state) (o : op) (client : key),
+  inv_struct s -> creates o client -> step s o = (s', Ok) ->
+  acct s (fst client) = None /\
+  (forall up, lic_get (lics s) (fst client, up) = None) /\
+  (exists l, lics s' = (client, l) :: lics s /\ 0 < l_amount l) /\
+  acct s' (fst client) = Some Base /\
+  (forall a, a <> fst client -> acct s' a = acct s a).
+Proof.
+  intros s s' o client Hs Hc E. pose proof Hs as [He _ _].
+  assert (Hcr : exists cr d amt m s1, create_licence_raw cr client d amt m s = (s1, Ok) /\
+                  lics s' = lics s1 /\ acct s' = acct s1).
+  { destruct Hc as [(cr & d & amt & m & ->)|(ch & c & amount & ->)]; simpl in E.
+    - apply step_ok_atomically in E. exists cr, d, amt, m, s'. auto.
+    - apply step_ok_atomically in E. apply handle_sale_ok in E as [_ E].
+      apply sale_ok in E as (_ & _ & g & fs & f & s1 & _ & _ & _ & _ & Hc & _ & ->).
+      exists (f, false), bond, (amount * Gen.C18.sale_multiplier), Gen.C18.sale_vesting_months, s1. auto. }
+  destruct Hcr as (cr & d & amt & m & s1 & Hc1 & Hl1 & Ha1).
+  apply (create_ok _ _ _ _ _ _ _ He) in Hc1
+    as (_ & _ & _ & _ & Hacc & Hpos & _ & _ & Hacct & Hlics & _).
+  split; [exact Hacc|]. split; [now apply no_licence_without_account|].
+  split; [eexists; rewrite Hl1, Hlics; split; [reflexivity | exact Hpos]|].
+  rewrite Ha1, Hacct. unfold upd1. split.
+  - now rewrite Z.eqb_refl.
+  - intros a Hne. destruct (a =? fst client) eqn:E1; [apply Z.eqb_eq in E1; congruence | reflexivity].
+Qed.
+
+(** in every reachable state: one licence per address, and it sits on a plain base account *)
+Theorem licences_unique_on_base_accounts : forall (s0 : state) (ops : list op),
+  inv_struct s0 ->
+  let s := run s0 ops in
+  NoDup (lic_ids (lics s)) /\
+  forall k l, In (k, l) (lics s) -> acct s (fst k) = Some Base /\ 0 < l_amount l.
+Proof.
+  intros s0 ops Hs s. pose proof (run_struct ops s0 Hs) as [He Hl Hn]. split; [exact Hn|].
+  intros k l Hin. destruct (Hl k l Hin) as (Ha & Hp & _). auto.
+Qed.
+
+(** a licence stays, untouched, until its own key registers *)
+Theorem licence_persists : forall (s : state) (o : op) (k : key) (l : licence),
+  acct s escrow = Some Module ->
+  lic_get (lics s) k = Some l -> o <> Register k -> lic_get (lics (fst (step s o))) k = Some l.
+Proof.
+  intros s o k l He Hget Hne. destruct (step s o) as [s' out] eqn:E. destruct out;
+    try (pose proof (failed_op_is_noop s o) as Hf; rewrite E in Hf; simpl in *; rewrite Hf; [exact Hget | discriminate]).
+  simpl.
+  assert (Hcreate : forall cr cl d amt m s1, create_licence_raw cr cl d amt m s = (s1, Ok) -> lic_get (lics s1) k = Some l).
+  { intros cr cl d amt m s1 Hc. apply (create_ok _ _ _ _ _ _ _ He) in Hc as (_ & _ & _ & Hnone & _ & _ & _ & _ & _ & Hlics & _).
+    rewrite Hlics. simpl. destruct (key_eqb cl k) eqn:Ek; [apply key_eqb_eq in Ek; subst; congruence | exact Hget]. }
+  destruct o; simpl in E.
+  - apply step_ok_atomically in E. eauto.
+  - apply step_ok_atomically in E. apply (activate_ok _ _ _ He) in E as (l0 & _ & _ & _ & _ & _ & _ & _ & _ & Hlics & _).
+    rewrite Hlics. rewrite lic_get_del_other; [exact Hget | congruence].
+  - destruct (clients s who) as [[a b]|]; inversion E; subst. exact Hget.
+  - apply step_ok_atomically in E. apply handle_sale_ok in E as [_ E].
+    apply sale_ok in E as (_ & _ & g & fs & f & s1 & _ & _ & _ & _ & Hc & _ & ->). simpl. eauto.
+  - destruct (send s from to d amt) as [s1|e] eqn:Es; inversion E; subst.
+    apply send_inl in Es as (_ & _ & _ & _ & _ & Hlics & _).
+    destruct (to =? escrow); simpl; rewrite Hlics; exact Hget.
+  - destruct (grants s granter grantee); inversion E; subst. simpl. destruct (acct s grantee); exact Hget.
+  - inversion E; subst. exact Hget.
+  - inversion E; subst. exact Hget.
+  - inversion E; subst. exact Hget.
+  - inversion E; subst. destruct (dt <? 0); exact Hget.
+Qed.
+
+(** only the two creation operations add a licence *)
+Theorem only_creation_adds_licences : forall (s : state) (o : op),
+  acct s escrow = Some Module -> (forall client, ~ creates o client) ->
+  incl (lics (fst (step s o))) (lics s).
+Proof.
+  intros s o He Hnc. destruct (step s o) as [s' out] eqn:E. destruct out;
+    try (pose proof (failed_op_is_noop s o) as Hf; rewrite E in Hf; simpl in *; rewrite Hf; [apply incl_refl | discriminate]).
+  simpl. destruct o; simpl in E.
+  - exfalso. eapply Hnc. left. eauto.
+  - apply step_ok_atomically in E. apply (activate_ok _ _ _ He) in E as (l0 & _ & _ & _ & _ & _ & _ & _ & _ & Hlics & _).
+    rewrite Hlics. intros p Hp. now apply In_lic_del in Hp as [Hp _].
+  - destruct (clients s who) as [[a b]|]; inversion E; subst. apply incl_refl.
+  - exfalso. eapply Hnc. right. eauto.
+  - destruct (send s from to d amt) as [s1|e] eqn:Es; inversion E; subst.
+    apply send_inl in Es as (_ & _ & _ & _ & _ & Hlics & _).
+    destruct (to =? escrow); simpl; rewrite Hlics; apply incl_refl.
+  - destruct (grants s granter grantee); inversion E; subst. simpl. destruct (acct s grantee); apply incl_refl.
+  - inversion E; subst. apply incl_refl.
+  - inversion E; subst. apply incl_refl.
+  - inversion E; subst. apply incl_refl.
+  - inversion E; subst. destruct (dt <? 0); apply incl_refl.
+Qed.
+
+(** ---- C18, clauses 3 and 4: activation ---- *)
+Theorem activation_moves_exact_amount_thm : forall (s s' : state) (who : key),
+  acct s escrow = Some Module -> step s (Register who) = (s', Ok) ->
+  exists l, lic_get (lics s) who = Some l /\
+    fst who <> escrow /\ acct s (fst who) = Some Base /\
+    acct s' (fst who) = Some (Vesting (now s) (add_months (now s) (l_months l)) (l_amount l) (l_denom l)) /\
+    bal s' (fst who) (l_denom l) = bal s (fst who) (l_denom l) + l_amount l /\
+    bal s' escrow (l_denom l) = bal s escrow (l_denom l) - l_amount l /\
+    (forall a d, (a <> fst who /\ a <> escrow) \/ d <> l_denom l -> bal s' a d = bal s a d) /\
+    (forall a, a <> fst who -> acct s' a = acct s a) /\
+    lic_get (lics s') who = None /\
+    (forall k, k <> who -> lic_get (lics s') k = lic_get (lics s) k) /\
+    0 < l_amount l.
+Proof.
+  intros s s' who He E. simpl in E. apply step_ok_atomically in E.
+  apply (activate_ok _ _ _ He) in E
+    as (l & Hget & Hv & Hbase & Hne & Hpos & Hle & Hbal & Hacct & Hlics & _).
+  exists l. split; [exact Hget|]. split; [exact Hne|]. split; [exact Hbase|].
+  rewrite Hbal, Hacct, Hlics. repeat split.
+  - unfold upd1. now rewrite Z.eqb_refl.
+  - apply sent_bal_to. congruence.
+  - apply sent_bal_from. congruence.
+  - intros a d H. apply sent_bal_other. destruct H as [[H1 H2]|H]; [left; split; congruence | right; exact H].
+  - intros a Ha. unfold upd1. destruct (a =? fst who) eqn:E1; [apply Z.eqb_eq in E1; congruence | reflexivity].
+  - apply lic_get_del_same.
+  - intros k Hk. now apply lic_get_del_other.
+  - exact Hpos.
+Qed.
+
+(** an address whose licence has been used: it has an account and no licence under any spelling *)
+Definition spent (a : addr) (s : state) : Prop :=
+  acct s a <> None /\ forall k, fst k = a -> lic_get (lics s) k = None.
+
+Lemma step_acct_some s o a : acct s escrow = Some Module -> acct s a <> None -> acct (fst (step s o)) a <> None.
+Proof.
+  intros He Ha. destruct (step s o) as [s' out] eqn:E. destruct out;
+    try (pose proof (failed_op_is_noop s o) as Hf; rewrite E in Hf; simpl in *; rewrite Hf; [exact Ha | discriminate]).
+  simpl.
+  assert (Hcreate : forall cr cl d amt m s1, create_licence_raw cr cl d amt m s = (s1, Ok) -> acct s1 a <> None).
+  { intros cr cl d amt m s1 Hc. apply (create_ok _ _ _ _ _ _ _ He) in Hc as (_ & _ & _ & _ & _ & _ & _ & _ & Hacct & _).
+    rewrite Hacct. unfold upd1. destruct (a =? fst cl); [discriminate | exact Ha]. }
+  destruct o; simpl in E.
+  - apply step_ok_atomically in E. eauto.
+  - apply step_ok_atomically in E. apply (activate_ok _ _ _ He) in E as (l0 & _ & _ & _ & _ & _ & _ & _ & Hacct & _).
+    rewrite Hacct. unfold upd1. destruct (a =? fst who); [discriminate | exact Ha].
+  - destruct (clients s who) as [[x y]|]; inversion E; subst. exact Ha.
+  - apply step_ok_atomically in E. apply handle_sale_ok in E as [_ E].
+    apply sale_ok in E as (_ & _ & g & fs & f & s1 & _ & _ & _ & _ & Hc & _ & ->). simpl. eauto.
+  - destruct (send s from to d amt) as [s1|e] eqn:Es; inversion E; subst.
+    pose proof (send_mono _ _ _ _ _ _ Es a Ha) as Hm.
+    destruct (to =? escrow); simpl; rewrite Hm; exact Ha.
+  - destruct (grants s granter grantee); inversion E; subst. simpl.
+    destruct (acct s grantee) eqn:Eg; simpl; [exact Ha|].
+    unfold upd1. destruct (a =? grantee); [discriminate | exact Ha].
+  - inversion E; subst. exact Ha.
+  - inversion E; subst. exact Ha.
+  - inversion E; subst. exact Ha.
+  - inversion E; subst. destruct (dt <? 0); exact Ha.
+Qed.
+
+Lemma step_spent s o a : inv_struct s -> spent a s -> spent a (fst (step s o)).
+Proof.
+  intros Hs [Ha Hn]. pose proof Hs as [He _ _]. split; [now apply step_acct_some|].
+  intros k Hk.
+  destruct (lic_get (lics (fst (step s o))) k) as [l|] eqn:Eg; [|reflexivity]. exfalso.
+  (* the licence would have to be new: created by this very step, for an address without account *)
+  destruct (step s o) as [s' out] eqn:E. simpl in Eg.
+  destruct out; try (pose proof (failed_op_is_noop s o) as Hf; rewrite E in Hf; simpl in Hf;
+                     rewrite Hf in Eg by discriminate; rewrite Hn in Eg by assumption; discriminate).
+  assert (Hcreate : forall cr cl d amt m s1, create_licence_raw cr cl d amt m s = (s1, Ok) -> lic_get (lics s1) k = None).
+  { intros cr cl d amt m s1 Hc. apply (create_ok _ _ _ _ _ _ _ He) in Hc as (_ & _ & _ & _ & Hacc & _ & _ & _ & _ & Hlics & _).
+    rewrite Hlics. simpl. destruct (key_eqb cl k) eqn:Ek; [|now apply Hn].
+    apply key_eqb_eq in Ek; subst cl. rewrite Hk in Hacc. contradiction. }
+  pose proof (only_creation_adds_licences s o He) as Hinc. rewrite E in Hinc. simpl in Hinc.
+  destruct o; simpl in E;
+    try (apply lic_get_In in Eg; apply Hinc in Eg;
+         [ assert (Hx : lic_get (lics s) k = None) by now apply Hn;
+           destruct Hs as [_ Hl Hnd];
+           apply lic_get_none_notin with (l := lics s) (k := k) in Hx || idtac;
+           revert Eg; apply (lic_get_none_notin_inv (lics s) k); now apply Hn
+         | intros client [(cr & d' & amt' & m' & Hc)|(ch & c & am & Hc)]; discriminate ]; fail).
+  - apply step_ok_atomically in E. rewrite (Hcreate _ _ _ _ _ _ E) in Eg. discriminate.
+  - apply step_ok_atomically in E. apply handle_sale_ok in E as [_ E].
+    apply sale_ok in E as (_ & _ & g & fs & f & s1 & _ & _ & _ & _ & Hc & _ & ->). simpl in Eg.
+    rewrite (Hcreate _ _ _ _ _ _ Hc) in Eg. discriminate.
+Qed.
